@@ -249,6 +249,8 @@ func (vc *FuncVC) call(b *ssa.BasicBlock, idx int, ins ssa.Instruction, c *ssa.C
 	for i, d := range defined {
 		if d.S != "" && i < len(rs) && d.Sort == rs[i].Sort {
 			rs[i] = vc.define(fmt.Sprintf("r_%s_%d", shortCallee(siteKey), i), d)
+			vc.assume(reach, vc.typeFacts(rs[i], rtypes.At(i).Type(), 0))
+			vc.assume(reach, vc.allocFacts(st, rs[i], rtypes.At(i).Type(), 0))
 		}
 	}
 	setResults(rs)
